@@ -30,6 +30,7 @@ FORMULAS = [
     "center(a)", "scale(b)", "poly(a, 2)", "bs(a, df=4)", "C(A, contr.sum)", "C(A, contr.treatment('z')) + a", "C(B, contr.helmert):a",
     "y ~ a + A", "y ~ a | A", "log(a) + A",
     "0 + A + a", "0 + n + a", "n + b", "0 + n:A + b",
+    "3:A:B", "0 + 3:A:B", "a + 2:A:B", "2.5:a:A:B", "0 + 2:A",
 ]
 
 
@@ -48,7 +49,11 @@ def frames():
     nulls.loc[5, "b"] = np.nan
     shuffled = nulls.copy()
     shuffled.index = [4, 2, 5, 0, 1, 3]
-    return {"clean": clean, "nulls": nulls, "nulls-shuffled-index": shuffled}
+    catdt = clean.copy()
+    # categorical dtypes with a declared order that is not the sorted one, and with a declared level that never occurs
+    catdt["A"] = pd.Categorical(list(clean["A"]), categories=["z", "x", "w", "y"])
+    catdt["B"] = pd.Categorical(list(clean["B"]), categories=["v", "u"], ordered=True)
+    return {"clean": clean, "nulls": nulls, "nulls-shuffled-index": shuffled, "categorical-dtype": catdt}
 
 
 def to_arrow(df):
@@ -108,6 +113,11 @@ def drv(c, ctx, col):
     df = ctx["frame_objs"][fname]
     if fname.startswith("nulls") and na_action == "ignore" and any(t in formula for t in ("poly(", "bs(", "center(", "scale(")):
         raise Skip()  # stateful numeric transforms on data with unhandled nulls: behaviour not specified
+    if fname == "categorical-dtype" and mat == "narwhals/arrow":
+        # a pandas categorical becomes an arrow dictionary column; narwhals hands those over as plain text (sorted levels, unused
+        # entries dropped).  Whether an arrow dictionary's order is a "declared order" is not documented: classed unspecified (as in C08).
+        col.count("unspecified:arrow-dictionary-order")
+        raise Skip()
     key = "%r frame=%s na_action=%s output=%s entry=%s materializer=%s" % (formula, fname, na_action, output, entry, mat)
     detail = {"formula": formula, "frame": fname, "na_action": na_action, "output": output, "entry": entry, "materializer": mat}
     try:
@@ -150,6 +160,6 @@ def drv(c, ctx, col):
 def subchecks(tier, seed):
     fr = frames()
     quick = tier == "quick"
-    fs = FORMULAS if not quick else FORMULAS[::2] + [FORMULAS[(2 * seed + 1) % len(FORMULAS)]]
-    return [Sub("variants", drv, {"formulas": fs, "frames": ["clean", "nulls"] if quick else ["clean", "nulls", "nulls-shuffled-index"], "frame_objs": fr}, shard_depth=3,
+    fs = FORMULAS
+    return [Sub("variants", drv, {"formulas": fs, "frames": ["clean", "nulls", "categorical-dtype"] if quick else ["clean", "nulls", "nulls-shuffled-index", "categorical-dtype"], "frame_objs": fr}, shard_depth=3,
                 bounds={"formulas": fs, "frames": ["clean (6 rows)", "nulls (3 null cells)"], "variants_per_pair": 144})]
